@@ -347,6 +347,45 @@ def _signed_terms(e, sign=1):
     return [(sign, e)]
 
 
+def _filled_tables(fn_node):
+    """locals filled element by element in a loop over their index: {name: (index variable, value expression)} for `T[j] = f(j)`
+    inside `for j in ...` when that is the only subscript store into T (a per-link cache written by the forward pass)"""
+    out, count = {}, {}
+    for lp in ast.walk(fn_node):
+        if not (isinstance(lp, ast.For) and isinstance(lp.target, ast.Name)):
+            continue
+        for n in ast.walk(lp):
+            if isinstance(n, ast.Assign) and len(n.targets) == 1 and isinstance(n.targets[0], ast.Subscript) and isinstance(n.targets[0].value, ast.Name) \
+                    and isinstance(n.targets[0].slice, ast.Name) and n.targets[0].slice.id == lp.target.id:
+                nm = n.targets[0].value.id
+                count[nm] = count.get(nm, 0) + 1
+                out[nm] = (lp.target.id, n.value)
+    for n in ast.walk(fn_node):
+        if isinstance(n, ast.Assign) and isinstance(n.targets[0], ast.Subscript) and isinstance(n.targets[0].value, ast.Name) \
+                and not (isinstance(n.targets[0].slice, ast.Name)):
+            count[n.targets[0].value.id] = count.get(n.targets[0].value.id, 0) + 1
+    return {k: v for k, v in out.items() if count.get(k) == 1}
+
+
+def _read_tables(e, tables):
+    """T[idx] -> f(idx) for the tables of _filled_tables"""
+    import copy as _copy
+
+    class R(ast.NodeTransformer):
+        def visit_Subscript(self, n):
+            n = self.generic_visit(n)
+            if isinstance(n.value, ast.Name) and n.value.id in tables and not isinstance(n.slice, (ast.Slice, ast.Tuple)):
+                j, val = tables[n.value.id]
+                idx = n.slice
+
+                class S(ast.NodeTransformer):
+                    def visit_Name(self_, m):
+                        return _copy.deepcopy(idx) if (m.id == j and isinstance(m.ctx, ast.Load)) else m
+                return S().visit(_copy.deepcopy(val))
+            return n
+    return R().visit(_copy.deepcopy(e))
+
+
 def r085(model, rep, arm):
     """Sibling conformance of the two branches of the backward (force) recursion of Arm.inverseDynamics: the tip link is the
     general step with the tip wrench in place of the next link's wrench; the inertial and velocity-product terms are the same
@@ -368,9 +407,13 @@ def r085(model, rep, arm):
         return
     wp = fi.params[5] if len(fi.params) > 5 else 'end_effector_wrench'
     per = []
+    tables = _filled_tables(fi.node)     # per-link caches filled by the forward pass are read through
+    # statements after the if/else belong to both branches (a refactor may merge the common tail of the two branches)
+    tail = lp.body[lp.body.index(ifs[0]) + 1:]
     for br in (ifs[0].body, ifs[0].orelse):
-        env, stores = block_env(br)
-        st = [(t, v) for (t, v, s_) in stores if isinstance(t, ast.Subscript) and v is not None]
+        env, stores = block_env(list(br) + list(tail))
+        stores = [(t, _read_tables(v, tables) if v is not None else None, s_) for (t, v, s_) in stores]
+        st = [(t, v) for (t, v, s_) in stores if isinstance(t, ast.Subscript) and v is not None and 'Adjoint' in norm_text(v)]
         if len(st) != 1:
             rep.unresolved_item('R08.5', '%s:%d' % (fi.module.relpath, ifs[0].lineno), 'a branch of the backward recursion does not store exactly one link wrench')
             return
